@@ -11,7 +11,9 @@ use tokio::sync::{broadcast, mpsc};
 /// let shutdown = Shutdown::new();
 /// ...
 /// shutdown.lock().unwrap().submit();
-/// shutdown.lock().unwrap().completion().await;
+/// // do not hold the lock while waiting: whoever registers meanwhile needs it
+/// let completion = shutdown.lock().unwrap().completion();
+/// completion.await;
 /// ```
 ///
 /// * inside the library:
@@ -34,7 +36,7 @@ pub struct Shutdown {
     /// Sends messages to [`Notification::notify_rx`]
     notify_tx: broadcast::Sender<()>,
     /// Protects [`Shutdown::completion`] from early return
-    shutdown_complete_rx: mpsc::Receiver<()>,
+    shutdown_complete_rx: Option<mpsc::Receiver<()>>,
     /// Protects [`Shutdown::completion`] from early return
     shutdown_complete_tx: Option<mpsc::Sender<()>>,
 }
@@ -59,7 +61,7 @@ impl Shutdown {
 
         Arc::new(Mutex::new(Self {
             notify_tx,
-            shutdown_complete_rx,
+            shutdown_complete_rx: Some(shutdown_complete_rx),
             shutdown_complete_tx: Some(shutdown_complete_tx),
         }))
     }
@@ -71,11 +73,18 @@ impl Shutdown {
         }
     }
 
-    /// Wait until all the things commit graceful shutdowns
-    pub async fn completion(&mut self) {
+    /// Wait until all the things commit graceful shutdowns.
+    /// The returned future does not borrow `self`, so the lock protecting the [`Shutdown`]
+    /// can (and should) be released before awaiting it.
+    pub fn completion(&mut self) -> impl std::future::Future<Output = ()> {
         self.shutdown_complete_tx = None;
-        // receiver returns `None` after all the senders are dropped
-        let _ = self.shutdown_complete_rx.recv().await;
+        let rx = self.shutdown_complete_rx.take();
+        async move {
+            // receiver returns `None` after all the senders are dropped
+            if let Some(mut rx) = rx {
+                let _ = rx.recv().await;
+            }
+        }
     }
 
     /// Get a completion handler which is used to notify the application level of
